@@ -11,9 +11,13 @@ package internal
 
 // ---- byte accessors (same shape as securememory.Secret.WithBytesFunc, which implements them) ----
 
+// keysecret(a): the secret behind a byte accessor (a key)
+//@ ghost field keysecret(BytesFuncAccessor) securememory.Secret
+//@ ghost define keysecret(this *CryptoKey) = this.secret
 //@ iface BytesFuncAccessor.WithBytesFunc
 //@   names action
 //@   opt callback action
+//@   cbassume keyof(arr(cb_arg0)) == keysecret(this)
 //@   ensures cb_called ==> result == cb_ret0
 //@   ensures !cb_called ==> result == nil && err != nil
 //@   ensures cb_called ==> (err == cb_ret1 || err != nil)
@@ -55,6 +59,7 @@ package internal
 //@   ensures (err == nil) == (result != nil)
 //@   ensures err == nil ==> result.revoked == 0
 //@   ensures err == nil ==> fresh(result) && result.created == created && result.secret != nil && live(result.secret) && fresh(result.secret) && valid(result.secret)
+//@   ensures [C03:generated-key-is-random] err == nil ==> randomsecret(result.secret)
 //@   ensures [C09:only-the-key-s-secret-is-new] forall s securememory.Secret :: live(s) && !old(live(s)) ==> fresh(s) && err == nil && s == result.secret
 //@   ensures [C09:nothing-released] forall s securememory.Secret :: old(live(s)) ==> live(s)
 
@@ -81,3 +86,18 @@ package internal
 //@   requires k != nil
 //@   modifies k.revoked
 //@   ensures [C05:set-revoked-writes-the-flag] (k.revoked == 1) == revoked
+
+// ---- C03: FillRandom overwrites the whole buffer from crypto/rand (and panics if the source fails) ----
+//@ funcspec randReader
+//@   names b
+//@   modifies b[*]
+//@ extern rand.Read
+//@   implements randReader
+//@ func fillRandom
+//@   facet C03
+//@   param r randReader
+//@   requires r != nil
+//@   modifies buf[*]
+//@ func FillRandom
+//@   facet C03
+//@   modifies buf[*]
